@@ -104,6 +104,15 @@ theorem running_iff_last_power {seed : Nat} {extra : List (Nat × Nat × Nat)} {
 
 /-! ### 4. clock links and the shared generator -/
 
+/-- The clock invariant holds initially and is preserved by every operation from any well-wired
+world (reachable or not). -/
+theorem clock_inv_initial {w : World} (h : Initial w) : ClockInv w :=
+  ClockInv.of_initial h
+
+theorem clock_inv_step {w : World} (wf : WF w) (inv : ClockInv w) (op : Op) :
+    ClockInv (step w op).world :=
+  inv.step wf op
+
 theorem clock_links_inv {w : World} (h : Reachable w) :
     (∀ i : Nat, i ∈ w.clkLinks ↔ ∃ t, w.trxs[i]? = some t ∧ t.hasClock = true ∧ t.running = true) ∧
     w.clkLinks.Nodup :=
